@@ -142,11 +142,11 @@ func decodeExpectation(g *model.G, m wkbMode) *model.G {
 
 // splitReader hands out the bytes in pieces.
 type splitReader struct {
-	b       []byte
-	pos     int
-	pattern int
-	r       *fw.Rand
-	reads   int
+	b        []byte
+	pos      int
+	pattern  int
+	r        *fw.Rand
+	reads    int
 	zeroNext bool
 }
 
@@ -739,9 +739,9 @@ func c03Unsupported(c *fw.Ctx, idx int) {
 
 func init() {
 	fw.Register(&fw.Monitor{
-		ID:    "C03",
-		Title: "WKB/EWKB emit the standard byte layout and decode back to the same geometry",
-		Rule: "generated models (6 types, collections nested to depth 4 with mixed member layouts, empty members, empty points, fixed/unfixed empty collections) x {XY,XYZ,XYM,XYZM} x {WKB, WKB NaN mode, EWKB} x {NDR,XDR} x SRID {0,1,4326,2^31-1,2^31,2^32-1,random} x hostile floats: Marshal and Write bytes == independent reference writer; Unmarshal of reference bytes == model (carve-outs applied in one place); Read through 4 reader split patterns (1-byte, random chunks, data+EOF, interleaved zero-length reads) with exact byte consumption, also over 2..5 concatenated geometries; a failing writer at every byte position (<=200 bytes) must surface its own error; hex variants; database/sql wrappers (7x7 Scan matrix per format, non-[]byte sources); unsupported layouts. distinct_nontrivial = distinct (mode, srid class, shape signature) / wrapper pairs",
+		ID:     "C03",
+		Title:  "WKB/EWKB emit the standard byte layout and decode back to the same geometry",
+		Rule:   "generated models (6 types, collections nested to depth 4 with mixed member layouts, empty members, empty points, fixed/unfixed empty collections) x {XY,XYZ,XYM,XYZM} x {WKB, WKB NaN mode, EWKB} x {NDR,XDR} x SRID {0,1,4326,2^31-1,2^31,2^32-1,random} x hostile floats: Marshal and Write bytes == independent reference writer; Unmarshal of reference bytes == model (carve-outs applied in one place); Read through 4 reader split patterns (1-byte, random chunks, data+EOF, interleaved zero-length reads) with exact byte consumption, also over 2..5 concatenated geometries; a failing writer at every byte position (<=200 bytes) must surface its own error; hex variants; database/sql wrappers (7x7 Scan matrix per format, non-[]byte sources); unsupported layouts. distinct_nontrivial = distinct (mode, srid class, shape signature) / wrapper pairs",
 		Assume: []string{"reference WKB/EWKB codec in harness/ref, pinned by hand-checked PostGIS/ISO vectors (go test ./ref)", "byte-exact comparison uses member SRID 0 (the only state constructors and decoders produce)"},
 		Classes: []fw.Class{
 			{Name: "codec", Quick: 40000, Thorough: 2000000, Run: c03Codec},
